@@ -1,6 +1,7 @@
 import FsModel.Wire
 import FsModel.Flow
 import FsModel.OpSeq
+import FsModel.Generated
 
 /-! `fsmodel`: reads the harness transcript (scenario lines `C`, implementation-defined inputs
 `I`), runs the executable model and prints its own `O` lines in the harness format. -/
@@ -28,12 +29,22 @@ def parseOp (tok : String) : Option Op :=
   | _ => none
 
 open Fs.OpSeq in
+def ofGenDir : Fs.Gen.Dir → Dir
+  | .undefined => .undefined | .single => .single | .multi => .multi
+
+open Fs.OpSeq in
+/-- operator flags come from the table regenerated from the source (`static constexpr` members) -/
+def ofGen (f : Fs.Gen.OpFlags) (graphSnapshot : Bool) : Flags :=
+  { graphUpdated := f.graphUpdated, elevUpdated := f.elevUpdated, inDir := ofGenDir f.inDir,
+    outDir := ofGenDir f.outDir, graphSnapshot := graphSnapshot }
+
+open Fs.OpSeq in
 def flagsOf : Op → Flags
-  | .single _ => { graphUpdated := true, elevUpdated := false, inDir := .undefined, outDir := .single, graphSnapshot := false }
-  | .multi _ => { graphUpdated := true, elevUpdated := false, inDir := .undefined, outDir := .multi, graphSnapshot := false }
-  | .pflood => { graphUpdated := false, elevUpdated := true, inDir := .undefined, outDir := .undefined, graphSnapshot := false }
-  | .mst _ _ => { graphUpdated := true, elevUpdated := true, inDir := .single, outDir := .single, graphSnapshot := false }
-  | .snap _ g _ => { graphUpdated := false, elevUpdated := false, inDir := .undefined, outDir := .undefined, graphSnapshot := g }
+  | .single _ => ofGen Fs.Gen.flags_single_flow_router false
+  | .multi _ => ofGen Fs.Gen.flags_multi_flow_router false
+  | .pflood => ofGen Fs.Gen.flags_pflood_sink_resolver false
+  | .mst _ _ => ofGen Fs.Gen.flags_mst_sink_resolver false
+  | .snap _ g _ => ofGen Fs.Gen.flags_flow_snapshot g
 
 structure Call where
   li : Nat
@@ -111,7 +122,12 @@ def callGraph (c : Call) (st : St) : St × List String :=
         for o in ops do
           let f := flagsOf o
           match o with
-          | .snap nm true _ => out := out ++ [(nm, dir == .single)]
+          | .snap nm true _ =>
+            -- std::map::insert keeps the first entry registered under a name
+            let sf := match out.find? (·.1 == nm) with
+              | some p => p.2
+              | none => dir == .single
+            out := out ++ [(nm, sf)]
           | _ => pure ()
           if f.graphUpdated && f.outDir != .undefined then dir := f.outDir
         -- std::map iteration of keys is sorted, but the harness walks the key vector
